@@ -192,6 +192,28 @@ def single_step(ctx):
             delegated = [c for c in f.stmts.values() if c["k"] == "CXXMemberCallExpr" and (c.get("callee") or {}).get("name") in ("store", "operator=")
                          and path(f, f.s(c["obj"])) in ("this", "*this")]
             if not muts and not delegated:
+                # written THROUGH a handle of the wrapper itself (`*lock() = v;`, `auto h = lock(); *h = v;`): the
+                # assignment to the dereferenced handle is the modification
+                for st in f.stmts.values():
+                    tgt = None
+                    if st["k"] == "CXXOperatorCallExpr" and st.get("op") == "=" and len(st["args"]) == 2:
+                        tgt = unwrap(f, f.s(st["args"][0]))
+                    elif st["k"] == "BinaryOperator" and st.get("op") == "=":
+                        tgt = unwrap(f, f.children(st)[0])
+                    if tgt is None or not ((tgt["k"] == "CXXOperatorCallExpr" and tgt.get("op") == "*") or
+                                           (tgt["k"] == "UnaryOperator" and tgt.get("op") == "*")):
+                        continue
+                    src = unwrap(f, f.s(tgt["args"][0]) if tgt["k"] == "CXXOperatorCallExpr" else f.children(tgt)[0])
+                    if src is not None and src["k"] == "DeclRefExpr":
+                        inits = [f.s(d.get("init")) for s_ in f.stmts.values() if s_["k"] == "DeclStmt" for d in s_["decls"]
+                                 if d["id"] == src["d"].get("id") and d.get("init")]
+                        src = unwrap(f, inits[0]) if len(inits) == 1 else None
+                    while src is not None and src["k"] in CTORS and len(src["args"]) == 1:
+                        src = unwrap(f, f.s(src["args"][0]))
+                    if src is not None and src["k"] == "CXXMemberCallExpr" and path(f, f.s(src["obj"])) in ("this", "*this") and \
+                            (src.get("callee") or {}).get("name") in ("lock", "try_lock", "try_lock_for", "try_lock_until"):
+                        muts.append((st, "write", dict(st, callee={"fq": "assignment through the handle of %s()" % src["callee"]["name"]}), True))
+            if not muts and not delegated:
                 # forwarded to another member (e.g. exchange()): judge the steps that member performs on the payload
                 for c in f.stmts.values():
                     if c["k"] == "CXXMemberCallExpr" and path(f, f.s(c["obj"])) in ("this", "*this"):
